@@ -157,6 +157,11 @@ pub fn control(tr: &mut Tr, g: &mut G, pw: &CratePow) {
             let mut prev: Option<(i64, f32)> = None;
             let mut prevq: Option<(i64, f32)> = None;
             let mut mag = 0.0f32;
+            // powf-dependent updates so far in the current run: a 1-ulp std/libm difference in powf
+            // moves each update by at most 2 ulp of the run's magnitude and these add up, so the
+            // magnitude handed to the driver is scaled by the next power of two >= steps/2
+            let mut steps = 0u32;
+            let scale = |steps: u32| ((steps + 1) / 2).max(1).next_power_of_two() as f32;
             for ev in &h {
                 src.ev(ev);
                 srcq.set(match ev {
@@ -179,6 +184,7 @@ pub fn control(tr: &mut Tr, g: &mut G, pw: &CratePow) {
                         prev = None;
                         prevq = None;
                         mag = 0.0;
+                        steps = 0;
                         tr.out_f("ewma.f32", &of);
                         tr.out_f("ewma.q", &oq);
                     }
@@ -186,15 +192,18 @@ pub fn control(tr: &mut Tr, g: &mut G, pw: &CratePow) {
                         // absent input: whatever the stream says carries no new arithmetic
                         match prev {
                             None => tr.out_f("ewma.f32", &of),
-                            Some(_) => tr.out_f_p("ewma.f32", &of, mag),
+                            Some(_) => tr.out_f_p("ewma.f32", &of, mag * scale(steps)),
                         }
                         match prevq {
                             None => tr.out_f("ewma.q", &oq),
-                            Some(_) => tr.out_f_p("ewma.q", &oq, mag),
+                            Some(_) => tr.out_f_p("ewma.q", &oq, mag * scale(steps)),
                         }
                     }
                     Ev::Some(t, x) => {
                         mag = mag.max(x.abs());
+                        if prev.is_some() {
+                            steps += 1;
+                        }
                         for (tag, o, pv) in [("ewma.f32", &of, &mut prev), ("ewma.q", &oq, &mut prevq)] {
                             match *pv {
                                 None => {
@@ -202,7 +211,7 @@ pub fn control(tr: &mut Tr, g: &mut G, pw: &CratePow) {
                                     tr.out_f(tag, o);
                                 }
                                 Some((pt, px)) => {
-                                    tr.out_f_p(tag, o, mag);
+                                    tr.out_f_p(tag, o, mag * scale(steps));
                                     // in-build law: prev*(1-L)+new*L, L = 1 - powf(1-s, dt), same powf
                                     let dt = f32::from(Quantity::from(Time(*t - pt)));
                                     let l = 1.0 - pw.powf(1.0 - sm, dt);
